@@ -350,8 +350,6 @@ def run_spec_cases(run, res):
     for case in order:
         main, table, crc = build(case)
         tag = '%s:%s/plan=%s' % (case['fam'], case['sup'] if case['sup'] != 'none' else case['dl'] if case['dl'] != 'none' else 'nolink', case['plan'])
-        if case['fam'] in ('sup', 'chain') and case['supplan'] != 'plain':
-            tag += '/supplan=' + case['supplan']
         brief = {'cfg': {k: case[k] for k in ('fam', 'cls', 'le', 'ver', 'fmt', 'plan', 'dl', 'home', 'sup', 'supplan', 'loader', 'follow')},
                  'expect': case['outcome'], 'main_b64': core.b64(main), 'files_b64': {k.decode(): core.b64(v) for k, v in table.items()}}
         nontrivial = case['plan'] not in ('plain', 'none') or case['dl'] != 'none' or case['sup'] != 'none'
@@ -429,6 +427,7 @@ def run_spec_cases(run, res):
             raise core.MachineryError('no plain reference for %r' % (case['refkey'],))
         if bool(d['sup']) != case['suploaded']:
             bad('sup_loaded', case['suploaded'], d['sup'])
+            continue
         df = first_diff(ref, d)
         if df:
             bad('dump', {'at': df[0], 'plain': _short(df[1])}, {'at': df[0], 'encoded': _short(df[2])})
@@ -683,6 +682,9 @@ def run_corpus(run, layout, files, levels, objcopy):
                 continue
             if mode == 'all' and (o['has_strict'] is not True or o['has_nonstrict'] is not True):
                 run.mismatch('corpus.has_dwarf_info', tag, brief, True, [o['has_strict'], o['has_nonstrict']])
+            if bool(o['dump']['sup']) != bool(want['sup']):
+                run.mismatch('corpus.sup_loaded', tag, brief, want['sup'], o['dump']['sup'])
+                continue
             a, b = (want, o['dump']) if mode == 'all' else (_strip_for_link(want), _strip_for_link(o['dump']))
             df = first_diff(a, b)
             if df:
